@@ -33,6 +33,9 @@ const (
 	// FaultBigGarbage: send 3000 octets of ff instead of downlink message K (more than the 2048-octet receive buffer
 	// of the procedures holds: the read is cut at the buffer size, the octets are still undecodable)
 	FaultBigGarbage = "biggarbage"
+	// FaultCount: send downlink message K with its IE count raised by one — every length in the message still matches the octets
+	// present, only the list announces an IE that is not there: not a decodable NGAP message ("sequence truncated")
+	FaultCount = "count"
 	FaultOther   = "other"   // send a decodable NGAP message of a type the emulator never expects (Error Indication)
 	FaultCloseUL = "closeul" // close the association right after receiving uplink message K, answering nothing
 	// FaultSilent: from downlink message K on the peer neither answers nor closes. This is OUTSIDE the property's fault
@@ -58,7 +61,7 @@ func ParseFault(s string) (Fault, error) {
 		return Fault{}, fmt.Errorf("fault index %q", s[:i])
 	}
 	switch s[i+1:] {
-	case FaultClose, FaultGarbage, FaultTrunc, FaultOther, FaultCloseUL, FaultSilent, FaultBigGarbage:
+	case FaultClose, FaultGarbage, FaultTrunc, FaultOther, FaultCloseUL, FaultSilent, FaultBigGarbage, FaultCount:
 		return Fault{Kind: s[i+1:], K: k}, nil
 	}
 	return Fault{}, fmt.Errorf("fault kind %q", s[i+1:])
@@ -524,6 +527,8 @@ func (r *runner) send(d dlMsg) bool {
 			out, m.Ngap, m.Nas = []byte{0xff, 0xff, 0xff}, "?", ""
 		case FaultBigGarbage:
 			out, m.Ngap, m.Nas = bytes.Repeat([]byte{0xff}, 3000), "?", ""
+		case FaultCount:
+			out, m.Ngap, m.Nas = countLie(d.bytes), "?", ""
 		case FaultTrunc:
 			out, m.Ngap, m.Nas = d.bytes[:len(d.bytes)/2], "?", ""
 		case FaultOther:
@@ -539,6 +544,26 @@ func (r *runner) send(d dlMsg) bool {
 	r.dlIndex++
 	r.t.DL++
 	return true
+}
+
+// countLie: the IE count of an NGAP PDU (two octets behind the length of the message value and the extension octet) plus one;
+// ff ff ff for a message that does not have the usual layout
+func countLie(b []byte) []byte {
+	if len(b) < 7 {
+		return []byte{0xff, 0xff, 0xff}
+	}
+	off := 4 // choice, procedure code, criticality, one length octet
+	if b[3]&0x80 != 0 {
+		off = 5
+	}
+	if len(b) < off+3 {
+		return []byte{0xff, 0xff, 0xff}
+	}
+	out := append([]byte{}, b...)
+	n := int(out[off+1])<<8 | int(out[off+2])
+	n++
+	out[off+1], out[off+2] = byte(n>>8), byte(n)
+	return out
 }
 
 // gone waits up to d for the emulator's end to disappear without consuming anything.
